@@ -53,7 +53,10 @@ CONTEXT = [('', ''), ('{', '}'), ('\\zzwrap{', '}'), ('\\begin{itemize}\n\\item 
 listed = st.tuples(st.just('L'), st.sampled_from(LISTED), st.integers(1, 3), st.sampled_from(CONTEXT), st.booleans())
 unlisted = st.tuples(st.just('U'), st.sampled_from(UNLISTED))
 hidden = st.tuples(st.just('H'), st.sampled_from(HIDDEN), st.sampled_from(LISTED))
-doc_s = st.tuples(st.lists(st.one_of(listed, listed, unlisted, hidden, st.just(('W',)), st.just(('E',))), min_size=1, max_size=9),
+# a \def macro (the only definitions executed in extraction mode) whose body calls two listed macros with literal
+# arguments: both are reported at every use (seeded change C18-G)
+defbody = st.tuples(st.just('D'), st.sampled_from(LISTED[:8]), st.sampled_from(LISTED[:8]), st.integers(1, 2))
+doc_s = st.tuples(st.lists(st.one_of(listed, listed, unlisted, hidden, defbody, st.just(('W',)), st.just(('E',))), min_size=1, max_size=9),
                   st.lists(st.sampled_from(['zzex', 'zzey', 'input', 'include', 'footnote', 'section', 'caption', 'newtheorem',
                                             'fcolorbox', 'href', 'textcolor', 'newcommand', 'zznever', 'LaTeX']), min_size=1, max_size=4, unique=True),
                   st.sampled_from(['*', '*', None]))
@@ -117,6 +120,22 @@ def render(doc):
             feats.add('stray-skip-end')
         elif it[0] == 'W':
             r.src += r.word('H') + ' '
+        elif it[0] == 'D':
+            name = '\\zzd' + 'abcdefghij'[len(r.src) % 10] + 'abcdefghij'[r.n % 10]
+            r.src += '\\def' + name + '{'
+            ws = []
+            for templ, nm in (it[1], it[2]):
+                w = fill(r, templ, 1, False, nm in names)
+                r.src += ' '
+                if nm in names:
+                    ws += [(x, None) for x, _ in w]        # position: the call (not asserted here)
+            r.src += '} '
+            for _ in range(it[3]):
+                r.src += name + ' '
+                expected += ws
+            if ws:
+                feats.add('listed')
+                feats.add('listed-in-def-body')
         elif it[0] == 'U':
             t = it[1]
             while 'K' in t:
@@ -177,6 +196,8 @@ def check(doc):
             raise Violation('text-outside-listed-arguments-reported', case, dict(det, leaked=hid))
         raise Violation('extraction-differs', case, det)
     for w, off in expected:
+        if off is None:
+            continue
         i = plain.find(w)
         if list(pos[i:i + len(w)]) != list(range(off + 1, off + 1 + len(w))):
             raise Violation('extracted-word-position', case, dict(det, word=w, positions=list(pos[i:i + len(w)]), expected_first=off + 1))
